@@ -435,6 +435,9 @@ pub fn c10(a: &Args) -> i32 {
             let _ = std::fs::remove_file(&dest);
             let _ = std::fs::remove_file(tmp_of(&dest));
             if pre_exists { std::fs::write(&dest, &old).unwrap(); }
+            // every other case starts with a stale, longer <dest>.svspart left behind by an earlier killed pull
+            // (only where the pull must succeed: a pull that fails before creating its temp file rightly leaves a foreign file alone)
+            if case_id % 2 == 0 && ["complete", "verifier_accepts", "trailer_ok"].contains(&scenario) { std::fs::write(tmp_of(&dest), vec![0x5A; 4 * n]).unwrap(); }
             let want_complete: Vec<u8> = if scenario == "trailer_ok" || scenario == "trailer_reject" { complete[..n - 8].to_vec() } else { complete.clone() };
             let res: Result<(), String> = match puller {
                 "pull_to_file" => Client::connect(addr).map_err(|e| e.to_string()).and_then(|c| svs::pull_to_file(&c, resource, &dest).map_err(|e| e.to_string())),
@@ -514,6 +517,8 @@ pub fn c10(a: &Args) -> i32 {
                             let _ = std::fs::remove_file(&dest);
                             let _ = std::fs::remove_file(&tmp);
                             if pre { std::fs::write(&dest, &old).unwrap(); }
+                            let stale = inject.is_none() && scenario == "complete" && case_id % 2 == 0;
+                            if stale { std::fs::write(&tmp, vec![0x5A; 4 * n]).unwrap(); }
                             let mut cmd = std::process::Command::new("strace");
                             cmd.args(["-f", "-y", "-o", log.to_str().unwrap(), "-P", tmp.to_str().unwrap(), "-P", dest.to_str().unwrap(), "-e", SYS_TRACE]);
                             if let Some((call, when)) = &inject { cmd.args(["-e", &format!("inject={call}:signal=KILL:when={when}")]); }
@@ -524,7 +529,7 @@ pub fn c10(a: &Args) -> i32 {
                             let Ok(st) = st else { out.push(&json!({"ev": "tool_error", "what": "strace could not be run"})); return vec![]; };
                             let killed = st.signal().is_some() || st.code() == Some(137);
                             let fault = inject.as_ref().map(|(c, w)| format!("{c}#{w}")).unwrap_or("none".into());
-                            out.push(&json!({"ev": "begin", "scenario": scenario, "fault": fault, "puller": puller, "comp": compu, "pre": if pre { "old" } else { "absent" }, "resource": resource}));
+                            out.push(&json!({"ev": "begin", "scenario": scenario, "fault": fault, "puller": puller, "comp": compu, "pre": if pre { "old" } else { "absent" }, "resource": resource, "stale_tmp": stale}));
                             let calls = parse_strace(&std::fs::read_to_string(&log).unwrap_or_default(), tmp.to_str().unwrap(), dest.to_str().unwrap(), want_len, out);
                             let tmpc = match std::fs::read(&tmp) { Err(_) => "absent", Ok(b) if b.is_empty() => "empty", Ok(b) if b == complete[..want_len] => "complete", Ok(b) if complete.starts_with(&b) => "partial", Ok(_) => "other" };
                             out.push(&json!({"ev": "end", "scenario": scenario, "fault": fault, "puller": puller, "comp": compu, "pre": if pre { "old" } else { "absent" },
